@@ -167,7 +167,9 @@ def r_all(ctx):
         raise AnalysisError(f"sampling.sample: expected one or two stepping loops in the MCMC arm, found {len(lps)}")
     # ---- R3 thinning predicate
     iv = iv_main
-    lenv_main = {n.targets[0].id: n.value for n in main.body if isinstance(n, ast.Assign) and len(n.targets) == 1 and isinstance(n.targets[0], ast.Name)}
+    fsd = single_defs(f.node)        # loop-carried names (re-bound or augmented elsewhere) are not definitions to read through
+    lenv_main = {n.targets[0].id: n.value for n in main.body if isinstance(n, ast.Assign) and len(n.targets) == 1 and isinstance(n.targets[0], ast.Name)
+                 and n.targets[0].id in fsd}
     adds = [c for c in calls(main, tail="add_theta")]
     ctx.need(len(adds) == 1, "sampling.sample: results.add_theta(...) not found in the sampling loop")
     add = adds[0]
@@ -196,6 +198,8 @@ def r_all(ctx):
     conds = norm_conds
     for t, negated in conds:
         form = modular_form(t, iv, N, negated)
+        if form is None:
+            form = counter_form(f, main, add, t, negated, N)
         if form is not None:
             mods.append(form)
             continue
@@ -256,6 +260,53 @@ def one_unconditional_step(loop, model):
         if any(isinstance(x, (ast.Continue, ast.Break, ast.Return)) for x in ast.walk(st)):
             return False
     return True
+
+
+def counter_form(f, main, add, t, negated, N):
+    """a countdown / count-up counter that records every thin-th step:
+         c = thin ; loop: step; c -= 1; if c != 0: continue; record; c = thin
+         c = 0    ; loop: step; c += 1; if c == thin: record; c = 0
+       is the predicate ((i + 1) mod thin) == 0 on the 0-based iteration index -> (a, b, m) = (1, 0, thin); None if not this idiom"""
+    names = [x.id for x in ast.walk(t) if isinstance(x, ast.Name)]
+    cands = [n for n in names if n != "thin"]
+    if len(set(cands)) != 1:
+        return None
+    c = cands[0]
+    body = main.body
+    augs = [st for st in walk_own(main) if isinstance(st, ast.AugAssign) and isinstance(st.target, ast.Name) and st.target.id == c]
+    if len(augs) != 1 or augs[0] not in body or U(augs[0].value) != "1" or not isinstance(augs[0].op, (ast.Add, ast.Sub)):
+        return None        # exactly one unconditional +-1 per iteration
+    down = isinstance(augs[0].op, ast.Sub)
+    if augs[0].lineno > add.lineno:
+        return None
+    inits = [n for n in walk_own(f.node) if isinstance(n, ast.Assign) and len(n.targets) == 1 and U(n.targets[0]) == c and n not in list(walk_own(main))]
+    rearm = [n for n in walk_own(main) if isinstance(n, ast.Assign) and len(n.targets) == 1 and U(n.targets[0]) == c]
+    if len(inits) != 1 or len(rearm) != 1 or inits[0].lineno > main.lineno:
+        return None
+    start_v, rearm_v = U(inits[0].value), U(rearm[0].value)
+    want_v = "thin" if down else "0"
+    if start_v != want_v or rearm_v != want_v:
+        return None
+    # the re-arm happens on the recording path: same statement list as the add_theta statement
+    par = enclosing_map(main)
+    st_add = add
+    while st_add in par and not isinstance(st_add, ast.stmt):
+        st_add = par[st_add]
+    if par.get(rearm[0]) is not par.get(st_add):
+        return None
+    b_rec = N.b(t, neg=negated, integer=True)
+    # after normalising polarity the recording condition must be c == 0 (countdown) / c == thin (count-up); `negated` here means
+    # "the recording runs when the test is FALSE" was already folded in by the caller's convention: try both readings
+    want = N.b(parse_expr(f"{c} == 0" if down else f"{c} == thin"), integer=True)
+    alt = N.b(parse_expr(f"{c} <= 0" if down else f"{c} >= thin"), integer=True)
+    if b_rec in (want, alt) or N.b(t, neg=not negated, integer=True) in (negate_b(want),):
+        return Poly.const(1), Poly(), N.n(parse_expr("thin"))
+    return None
+
+
+def negate_b(b):
+    from engine.norm import negate
+    return negate(b)
 
 
 def modular_form(t, iv, N, negated=False):
